@@ -504,6 +504,13 @@ int main(int argc, char** argv)
 	int rc = sk_main(argc, argv);
 	fflush(stdout);
 	fflush(stderr);
+#ifdef SK_COV
+	{
+		/* coverage build (tools/coverage.sh): the profile is written by hand because _exit skips atexit */
+		extern int __llvm_profile_write_file(void);
+		__llvm_profile_write_file();
+	}
+#endif
 	/* skip sanitizer finalizers: race reports are already turned into
 	   violations by the engine and must not change the exit status */
 	_exit(rc);
